@@ -39,9 +39,12 @@ def base_record(opts):
     if o["roots"] >= 2:
         o["schema_def"], o["mutation"] = True, True
     suffix = TEXT_SUFFIXES[o["text"]]           # appended to EVERY description and deprecation reason
+    empty_reasons = suffix == EMPTY_REASONS     # ... except for the last entry: every deprecation reason is the EMPTY string (still deprecated), descriptions as they are
+    if empty_reasons:
+        suffix = ""
     # (the last text also gets an indented FIRST line: no block string can carry that)
     d = (lambda s: ("  " if o["text"] == 9 else "") + s + suffix) if o["desc"] else (lambda s: None)
-    dep = (lambda s: s + suffix) if o["dep"] else (lambda s: None)
+    dep = ((lambda s: "") if empty_reasons else (lambda s: s + suffix)) if o["dep"] else (lambda s: None)
     qname = "RootQ" if o["schema_def"] else "Query"
     mname = "RootM" if o["schema_def"] else "Mutation"
     if o["roots"] == 2:
@@ -131,7 +134,8 @@ def base_record(opts):
     return rec
 
 
-TEXT_SUFFIXES = ("", ' "q" \\ b', "\nsecond line", " \u00e9\u2713", " \U0001F600", " tail\\", ' quote"', "\tx", " \u2028\u0085 seps", "\n  all later lines indented\n   too", "\n   \nafter a line of blanks\n\t\nand one of tabs")
+EMPTY_REASONS = "<every deprecation reason is the empty string>"
+TEXT_SUFFIXES = ("", ' "q" \\ b', "\nsecond line", " \u00e9\u2713", " \U0001F600", " tail\\", ' quote"', "\tx", " \u2028\u0085 seps", "\n  all later lines indented\n   too", "\n   \nafter a line of blanks\n\t\nand one of tabs", EMPTY_REASONS)
 
 
 def quote(text):
@@ -165,7 +169,7 @@ def _desc(text, indent=""):
 
 
 def _dep(reason):
-    return (' @deprecated(reason: %s)' % quote(reason)) if reason else ""
+    return (' @deprecated(reason: %s)' % quote(reason)) if reason is not None else ""
 
 
 def _args(args):
